@@ -45,6 +45,9 @@ def build_stop(s):
     if k == "attempt":
         return rp.stop_after_attempt(s[1])
     if k == "delay":
+        if len(s) > 2 and s[2] == "timedelta":
+            import datetime
+            return rp.stop_after_delay(datetime.timedelta(seconds=s[1]))
         return rp.stop_after_delay(s[1])
     if k == "before_delay":
         return rp.stop_before_delay(s[1])
